@@ -642,6 +642,12 @@ func TestStructCases(t *testing.T) {
 		plans[p.Name] = p
 	}
 	evals := 0
+	// every case is replayed twice in this process, the second time in reverse order: the outcome of a case is a function of the
+	// case, not of what the process did before (memos, pools and lazily built tables keyed by too little would show here)
+	n0 := len(cases)
+	for k := n0 - 1; k >= 0; k-- {
+		cases = append(cases, cases[k])
+	}
 	for i, c := range cases {
 		sp, ok := plans[c.Struct]
 		if !ok {
@@ -724,7 +730,7 @@ func TestStructCases(t *testing.T) {
 			out.Emit(map[string]any{"case": i, "c": c, "problems": probs})
 		}
 	}
-	out.Emit(map[string]any{"summary": true, "cases": len(cases), "evaluations": evals})
+	out.Emit(map[string]any{"summary": true, "cases": n0, "evaluations": evals})
 }
 
 func names(tags []int) []string {
